@@ -22,7 +22,7 @@ from gym_gridverse.geometry import Position, Shape
 from gym_gridverse.grid_object import Color, Floor, MovingObstacle, Telepod
 
 from .. import compose, enc, gen, workloads
-from ..monitor import call_real, describe_exc, env_rng, raised_by_harness, reach
+from ..monitor import call_real, describe_exc, env_rng_state_repr, raised_by_harness, reach
 
 ID = 'C02'
 LEVEL = 'exploration'
@@ -64,8 +64,7 @@ def ops_for(rng, n):
 
 
 def env_rng_state(env):
-    r = env_rng(env)
-    return None if r is None else repr(r.bit_generator.state)
+    return env_rng_state_repr(env)
 
 
 def never_reset(env):
